@@ -304,3 +304,20 @@ Example cosine_example :
   match cosine_distance prim_fops [f_of_Z prim_fops 3; f_of_Z prim_fops 4] [f_of_Z prim_fops 3; f_of_Z prim_fops 4]
   with Ok x => f_bits prim_fops x | _ => 1%Z end = f_bits prim_fops (f_zero prim_fops).
 Proof. vm_compute. reflexivity. Qed.
+
+(* batch mode: whenever ExecuteBatch of json(arg)[x1]...[xn] succeeds on a chunk (any length,
+   any pairs), Execute succeeds on every pair of the chunk with the SAME value *)
+From KV Require Import Proofs.JsonBatchProofs.
+Theorem json_batch_is_row_by_row : forall (fo : fops) re p np arg xs ch col,
+  jeval_batch fo re (chain (ECall p (EName np "json") [arg]) xs) ch = Ok col ->
+  Forall2 (fun kv y => jeval fo re (fst kv) (snd kv) (chain (ECall p (EName np "json") [arg]) xs) = Ok y) ch col.
+Proof. exact json_batch_is_rows. Qed.
+Print Assumptions json_batch_is_row_by_row.
+
+Example json_batch_example :
+  match jeval_batch prim_fops (fun _ _ => OutOfModel)
+          (chain (ECall 0 (EName 0 "json") [EField 5 ValueKW]) [XName 4 16 "a"; XIdx 4 21 "1"])
+          [("k1", "{""a"":[1,""x""]}"); ("k2", "not json"); ("k3", "{""a"":""""}")]
+  with Ok [JV a; JV b; JV c] => [canon_of prim_fops a; canon_of prim_fops b; canon_of prim_fops c] | _ => [] end
+  = [CText "x"; CText ""; CText ""].
+Proof. vm_compute. reflexivity. Qed.
